@@ -173,6 +173,8 @@ func (tmg *TCPMuxGroup) worker() {
 			tmg.acceptCh <- c
 		})
 		if err != nil {
+			// the last member left while this connection was waiting: nobody will take it
+			_ = c.Close()
 			return
 		}
 	}
